@@ -94,6 +94,11 @@ CHECKS['C11'] = dict(
    text='Every constant expression of an expression grammar (arithmetic, stack words, vectors, nested meta blocks, local definitions, branches) up to 5 (quick) / 6 (thorough) nodes that evaluates standalone, in 11 contexts (top level, stack neighbours, vector, map value, definition, branch in definition, loop body, outer meta, outer meta vector, variable, after definition): C[#( e #)] vs C[literal values, last first] must agree on result, stack, variables, output. Sealing: all block bodies <= 3 words over a probing alphabet x outer stacks of depth 0..3 x an outer variable. After a block only constants remain (dictionary delta; equal code growth per value class). compile of every program of three grammars leaves stack, variables, output untouched.',
    note='Value of e obtained by ordinary evaluation (eager nested blocks flattened: they share the parent meta stack, pinned by the suite). User-defined immediate words are outside the property.',
    ref='DESIGN.md §4 C11')
+CHECKS['C03'] = dict(
+   technique='stateless exhaustive search over operation histories on up to three interpreter copies (eval / clone / step / reverse-step), every history rebuilt by replay; isolation invariant on every other copy and differential against a clone-free fresh replay after every operation',
+   text='Every history that starts with 0..2 share-building sources on the original and a clone, followed by every sequence of 3 (quick) / 4 (thorough) operations over a 43 (quick) / 61 (thorough) operation alphabet: 22 share-then-mutate sources (bit-string append/invert/and on shared buffers, vector push, map insert/remove, definitions and redefinitions, late binding, variables, emit with output interception, printing, binary-input reads, the 2D canvas host object) on copies A/B/C, clone B->C and A->C, compile + 2 steps, rnext, run. After every operation the complete dump, output and host-object probe of every other copy must be unchanged, and the operated copy must equal a freshly booted interpreter fed the same lineage without clones.',
+   note='Observable state of a copy = complete verif_dump + host-object probe. The REPL snapshot bookkeeping itself is not driven. Host objects shared by clone are an open known finding.',
+   ref='DESIGN.md §4 C03')
 
 NOT_BUILT = {}
 
